@@ -86,12 +86,20 @@ class BytesScenario(explore.Scenario):
             out.append(["isize", n])
         for n in range(0, w.size + 1):
             out.append(["replace", n])
-        for i in range(len(w.data)):
-            out.append(["poke", i])
+        for n in (0, 2, w.size):
+            if n <= w.size:
+                out.append(["replace_bytes", n])
+        # contents may have been assigned as an immutable bytes object; then
+        # only rebinding edits are legal Python
+        mutable = not isinstance(w.objs["B"].contents, bytes)
+        if mutable:
+            for i in range(len(w.data)):
+                out.append(["poke", i])
         if len(w.data) < w.size:
-            out.append(["append"])
+            if mutable:
+                out.append(["append"])
             out.append(["iadd2"])
-        if w.data:
+        if w.data and mutable:
             out.append(["dellast"])
             out.append(["delfirst"])
         out.append(["save_load"])
@@ -127,6 +135,9 @@ class BytesScenario(explore.Scenario):
                 w.data = (w.data + b"\0" * n)[:n]
             elif kind == "replace":
                 b.contents = bytearray(BASE[:op[1]])
+                w.data = BASE[:op[1]]
+            elif kind == "replace_bytes":
+                b.contents = bytes(BASE[:op[1]])
                 w.data = BASE[:op[1]]
             elif kind == "poke":
                 b.contents[op[1]] = 0xAA
